@@ -417,6 +417,31 @@ pub fn gen_c16_yuv(sh: &mut Shards, o: &Opts) -> u64 {
             }
         }
     }
+    // "every matrix": the non-standard matrix codes that the library decodes with primaries-derived
+    // constants (whatever it chooses to do for them, a grey must stay grey when the call succeeds)
+    let mut k = 0usize;
+    for &m in &[0u8, 10, 11, 12, 13, 14, 3] {
+        for &p in &[1u8, 9, 5, 4, 6, 8, 11, 22] {
+            for full in [false, true] {
+                for &n in &[8u8, 10, 16] {
+                    k += 1;
+                    let c = Cfg { mc: m, tc: 1, cp: p, full, n, ssx: 0, ssy: 0 };
+                    let mut rng = Rng::new(o.seed, 0x1616_8000 + k as u64);
+                    let mid = (1u32 << (n - 1)) as u16;
+                    let kk = 1u32 << (n - 8);
+                    let mut ys = sweep(n, if o.thorough { 1024 } else { 48 }, &mut rng);
+                    for v in [0u32, 16 * kk, 235 * kk, (1u32 << n) - 1] {
+                        ys.push(v as u16);
+                    }
+                    let px: Vec<[u16; 3]> = ys.iter().map(|&y| [y, mid, mid]).collect();
+                    evals += px.len() as u64;
+                    for (at, w, h) in cut_images(px.len(), k) {
+                        emit_dec::<u16>(sh, &c, 16, &px[at..at + w * h], w, h, "grey");
+                    }
+                }
+            }
+        }
+    }
     evals
 }
 
